@@ -48,6 +48,9 @@ type history struct {
 	sends []hSend
 	subs  []hSub
 	chans []hChan
+	// subscriptions whose first Unsubscribe was the scope's Close; Track calls
+	// that found the scope closed
+	cancelledByClose, trackNil int
 }
 
 type finding struct{ clause, op, cause, detail string }
@@ -105,7 +108,9 @@ func check(h *history) *verdict {
 	// subscriptions per channel
 	subsOf := make([][]int, len(h.chans))
 	for i := range h.subs {
-		subsOf[h.subs[i].ch] = append(subsOf[h.subs[i].ch], i)
+		if h.subs[i].ch >= 0 {
+			subsOf[h.subs[i].ch] = append(subsOf[h.subs[i].ch], i)
+		}
 	}
 
 	// cnt[c][sendIndex]; first reception stamp of every value on any channel
@@ -170,6 +175,10 @@ func check(h *history) *verdict {
 			}
 		}
 		// 2. the return value is the number of deliveries made
+		if sd.ret == never {
+			// still in flight when a stuck case was stopped: nothing to compare
+			continue
+		}
 		if sd.n != total[si] {
 			cause := "reported_fewer_than_delivered"
 			if sd.n > total[si] {
@@ -345,6 +354,9 @@ func classify(h *history, subsOf [][]int, cnt []map[int]int, firstRecv []uint64,
 		sd := &h.sends[si]
 		for k := range h.subs {
 			s := &h.subs[k]
+			if s.ch < 0 {
+				continue
+			}
 			if s.subRet < sd.call && s.unsubCall < sd.ret && firstRecv[si] != 0 && s.unsubCall > firstRecv[si] &&
 				len(subsOf[s.ch]) == 1 && cnt[s.ch][si] == 0 {
 				bl = append(bl, blocked{k, si})
@@ -380,10 +392,18 @@ func classify(h *history, subsOf [][]int, cnt []map[int]int, firstRecv []uint64,
 		}
 		_ = sd
 	}
+	if h.cancelledByClose > 0 {
+		vd.classes["scope_close_with_live_subscriptions"]++
+		vd.classes["subscriptions_cancelled_by_scope_close"] += h.cancelledByClose
+	}
+	vd.classes["track_on_closed_scope"] += h.trackNil
 	// Unsubscribe of a subscription that had received something, with no send in
 	// flight at any point of the call: the caller took the send token itself.
 	for k := range h.subs {
 		s := &h.subs[k]
+		if s.ch < 0 {
+			continue
+		}
 		got := 0
 		for _, n := range cnt[s.ch] {
 			got += n
